@@ -303,6 +303,14 @@ func numericStrata(ctx *Ctx, salt string, fracInt bool, args []string) []*sem.Ca
 							case "num":
 								s.ExMax = rel(hi)
 							}
+							if r.Chance(0.15) {
+								// annotations, OpenAPI style: nothing about validity changes
+								if typ == "integer" {
+									s.Format = sg.PickOf(r, []string{"int32", "int64"})
+								} else {
+									s.Format = sg.PickOf(r, []string{"float", "double"})
+								}
+							}
 							if r.Chance(0.25) {
 								if typ == "integer" {
 									s.MultipleOf = sg.Fp(sg.PickOf(r, []float64{2, 3, 5, 1}))
